@@ -56,6 +56,10 @@ func (core *JApiCore) drainCurrentScanner() *jerr.JApiError {
 
 // simply decides which function to call based on lexeme type
 func (core *JApiCore) next(lexeme scanner.Lexeme) *jerr.JApiError {
+	if je := core.checkLexemeHasDirective(lexeme); je != nil {
+		return je
+	}
+
 	switch lexeme.Type() {
 	case scanner.Keyword:
 		return core.processKeyword(lexeme)
@@ -80,6 +84,29 @@ func (core *JApiCore) next(lexeme scanner.Lexeme) *jerr.JApiError {
 
 	default:
 		panic(jerr.RuntimeFailure)
+	}
+}
+
+// checkLexemeHasDirective returns an error for a lexeme that can only belong to a directive (a parameter,
+// an annotation, a body or an opening parenthesis) when there is no directive being accumulated, e.g. at
+// the very beginning of a file or right after an INCLUDE directive.
+func (core *JApiCore) checkLexemeHasDirective(lexeme scanner.Lexeme) *jerr.JApiError {
+	if core.currentDirective != nil {
+		return nil
+	}
+
+	switch lexeme.Type() { //nolint:exhaustive // Other lexemes do not need a directive.
+	case scanner.Parameter:
+		return core.japiError(
+			fmt.Sprintf("%s %q", jerr.IncorrectParameter, lexeme.Value().String()),
+			lexeme.Begin(),
+		)
+	case scanner.Annotation:
+		return core.japiError(jerr.AnnotationIsForbiddenForTheDirective, lexeme.Begin())
+	case scanner.Schema, scanner.Text, scanner.Json, scanner.Enum, scanner.ContextExplicitOpening:
+		return core.japiError(jerr.ThereIsNoDirectiveForThisLexeme, lexeme.Begin())
+	default:
+		return nil
 	}
 }
 
